@@ -156,6 +156,14 @@ func BoundRepeats(v any) {
 						x[k] = n % 4
 					}
 				case map[string]any:
+					// (a zero factor under the name that is expanded first
+					// makes the whole product empty at no cost, whatever the
+					// other counts are: left alone)
+					if ks := SortedKeys(n); len(ks) > 0 {
+						if i, ok := n[ks[0]].(int); ok && i <= 0 {
+							break
+						}
+					}
 					for k2, e2 := range n {
 						if i, ok := e2.(int); ok && i > 3 {
 							n[k2] = i % 4
@@ -260,7 +268,13 @@ func (c ProgCfg) targetKeys(r *Rand, doc any, want func(any) bool) ([]string, Po
 	t := PickAny(r, ts)
 	ks, _ := t.KeysOnly()
 	if r.Chance(c.PBad) {
-		ks = append(append([]string{}, ks...), "nope")
+		if last := ks[len(ks)-1]; r.Chance(0.5) && len(last) > 0 {
+			// a near miss of an existing name (a typo), not an unrelated one
+			typo := PickAny(r, []string{last[:len(last)-1], last + "s", last[:len(last)-1] + "X", strings.ToUpper(last[:1]) + last[1:]})
+			ks = append(append([]string{}, ks[:len(ks)-1]...), typo)
+		} else {
+			ks = append(append([]string{}, ks...), "nope")
+		}
 	}
 	return ks, t, true
 }
@@ -463,6 +477,13 @@ func (c ProgCfg) plantDocRepeat(r *Rand, doc any) (any, string) {
 			return append(append([]any{}, l...), map[string]any{"$repeat": c.repeatCount(r)}, "$repeat"), "docrepeat-list"
 		}
 		return doc, ""
+	}
+	if r.Chance(0.08) {
+		// an empty product: a zero factor (expanded first, by name) next to
+		// counts that would be far too large on their own
+		m["$repeat"] = map[string]any{"a": PickAny(r, []int{0, 0, -1}), "b": PickAny(r, []int{20000, 1000000, 5}), "c": r.Range(1, 3)}
+		m[PickAny(r, c.Tree.Keys)] = r.Pick(`$"{$repeat:a}-{$repeat:b}"`, "$repeat:b", `$"{$repeat:c}"`)
+		return doc, "docrepeat-zero-factor"
 	}
 	if r.Chance(0.35) {
 		m["$repeat"] = map[string]any{"x": r.Range(1, 2), "y": r.Range(0, 2)}
